@@ -38,9 +38,9 @@ type obs struct {
 	Sections []sec    `json:"sections"` // candidates' filter sections in evaluation order (ascending row data offset)
 	Cap      int      `json:"cap"`
 	Region   sec      `json:"region"`
-	Reads    []sec    `json:"reads"`      // reads at or beyond the region start, in order
-	RowReads int      `json:"row_reads"`  // reads below the region
-	Outside  int      `json:"outside"`    // region reads not inside the region
+	Reads    []sec    `json:"reads"`     // reads at or beyond the region start, in order
+	RowReads int      `json:"row_reads"` // reads below the region
+	Outside  int      `json:"outside"`   // region reads not inside the region
 	Rows     []string `json:"rows"`
 	Expect   []string `json:"expect"`
 	QErr     string   `json:"qerr"`
